@@ -10,6 +10,7 @@ mod c13e;
 mod c14;
 mod life;
 mod c20rv;
+mod cbdx;
 mod c04;
 mod c05;
 mod c09;
@@ -40,6 +41,7 @@ fn main() {
             "c12e" => c12e::run(&a[2..]),
             "c13e" => c13e::run(&a[2..]),
             "c14" => c14::run(&a[2..]),
+            "cbdx" => cbdx::run(&a[2..]),
             "c17" => c17::run(&a[2..]),
             "c03" => c03::run(&a[2..]),
             "c04e2e" => c03::run_ctr(&a[2..]),
